@@ -461,6 +461,8 @@ class StmtMixin:
                     old = h.env[nm]
                     if old.kind == FN:
                         continue
+                    if old.kind == NONE:
+                        raise Unsupported(f"loop variable `{nm}` is None at loop entry and assigned in the body: give it a kind in the contract's `locals`", s)
                     h.env[nm] = self.fresh_value(f"lv_{nm}", old.kind)
                     if isinstance(old.kind, Ref):
                         pass
